@@ -1692,12 +1692,13 @@ class Simple(Family):
    <xs:element name="enl" type="EnL" minOccurs="0" maxOccurs="unbounded"/>
    <xs:element name="dl" type="TwoDates" minOccurs="0" maxOccurs="unbounded"/>
    <xs:element name="ql" type="TwoQNs" minOccurs="0" maxOccurs="unbounded"/>{alt}
-  </xs:sequence><xs:attribute name="n" type="xs:positiveInteger"/></xs:complexType>
+  </xs:sequence><xs:attribute name="n" type="xs:positiveInteger"/><xs:attribute name="tl" type="Triple"/></xs:complexType>
  </xs:element>
+ <xs:simpleType name="Triple"><xs:restriction base="Ints"><xs:length value="3"/></xs:restriction></xs:simpleType>
 </xs:schema>"""}
 
     def _doc(self, version_alt='', en='1', lst='1 2 3', un2='2020-02-02'):
-        return (_decl() + f'<root xmlns:f="urn:f" n="1"><en>{en}</en><den>1.5</den><fen>1</fen><dt>2020-01-31</dt><gy>2020</gy>'
+        return (_decl() + f'<root xmlns:f="urn:f" n="1" tl="1 2 3"><en>{en}</en><den>1.5</den><fen>1</fen><dt>2020-01-31</dt><gy>2020</gy>'
                 f'<du>P1Y</du><tm>00:00:00Z</tm><fl>1.5</fl><td>1.5</td><lst>{lst}</lst><un>1</un><un>{un2}</un>'
                 f'<qn>f:name</qn><hx>0A1B</hx><bo>true</bo>{version_alt}</root>\n')
 
